@@ -70,6 +70,8 @@ Definition parse_connect (b : list N) : res body :=
             else
               let pflag := bit flags 6 in
               let uflag := bit flags 7 in
+              if is_v3x version && pflag && negb uflag then Err MALFORMED    (* (3.1.1) [MQTT-3.1.2-22] *)
+              else
               do '(keepalive, b) <- remap MALFORMED (read_uint16 b);
               do '(pr, wpr, b) <-
                 (if version =? 5 then
@@ -90,6 +92,8 @@ Definition parse_connect (b : list N) : res body :=
                    else Ok (wpr, [], [], b));
                 do '(user, b) <- (if uflag then read_utf8_string true b else Ok ([], b));
                 do '(pass, b) <- (if pflag then read_utf8_string false b else Ok ([], b));
+                if negb (is_empty b) then Err MALFORMED              (* bytes left over *)
+                else
                 Ok (BConnect {| c_version := version; c_level := level; c_uflag := uflag; c_pname := pname;
                                 c_pflag := pflag; c_wretain := wretain; c_wqos := wqos; c_wflag := wflag;
                                 c_wtopic := wtopic; c_wmsg := wmsg; c_clean := clean; c_keepalive := keepalive;
@@ -102,9 +106,9 @@ Definition parse_connack (ver : N) (b : list N) : res body :=
   if 0 <? N.land 127 (N.shiftr sp 1) then Err MALFORMED
   else
     do '(code, b) <- remap MALFORMED (read_byte b);
-    if ver =? 5 then
-      do '(p, _) <- props_unpack CONNACK b; Ok (BConnack ver code (sp =? 1) (Some p))
-    else Ok (BConnack ver code (sp =? 1) None).
+    do '(pr, b) <- (if ver =? 5 then do '(p, b') <- props_unpack CONNACK b; Ok (Some p, b') else Ok (None, b));
+    if negb (is_empty b) then Err MALFORMED                               (* bytes left over *)
+    else Ok (BConnack ver code (sp =? 1) pr).
 
 (* NewPublishPacket + Publish.Unpack *)
 Definition publish_flags (flags : N) : res (bool * N * bool) :=
@@ -116,10 +120,12 @@ Definition publish_flags (flags : N) : res (bool * N * bool) :=
 
 Definition parse_publish (ver : N) (dup : bool) (qos : N) (retain : bool) (b : list N) : res body :=
   do '(topic, b) <- read_utf8_string true b;
-  do ok <- valid_topic_name_impl true topic;
+  do ok <- (if len topic =? 0 then Ok true else valid_topic_name_impl true topic);
   if negb ok then Err MALFORMED
   else
-    do '(pid, b) <- (if 0 <? qos then read_uint16 b else Ok (0, b));
+    do '(pid, b) <- (if 0 <? qos then
+                       do '(i, b') <- read_uint16 b; if i =? 0 then Err PROTOCOL else Ok (i, b')   (* [MQTT-2.2.1-3] *)
+                     else Ok (0, b));
     do '(pr, b) <- (if ver =? 5 then do '(p, b') <- props_unpack PUBLISH b; Ok (Some p, b') else Ok (None, b));
     (* len(p.TopicName) == 0 && (p.Version != Version5 || p.Properties.TopicAlias == nil) *)
     if (len topic =? 0)
@@ -131,11 +137,15 @@ Definition parse_publish (ver : N) (dup : bool) (qos : N) (retain : bool) (b : l
 Definition parse_ack (t ver rl : N) (b : list N) : res body :=
   do '(pid, b) <- read_uint16 b;
   if rl =? 2 then Ok (BAck t ver pid 0 None)
-  else if ver =? 5 then
-    do '(code, b) <- remap MALFORMED (read_byte b);
-    do '(p, _) <- props_unpack t b;
-    Ok (BAck t ver pid code (Some p))
-  else Ok (BAck t ver pid 0 None).
+  else
+    do '(code, pr, b) <-
+      (if ver =? 5 then
+         do '(code, b) <- remap MALFORMED (read_byte b);
+         do '(p, b) <- props_unpack t b;
+         Ok (code, Some p, b)
+       else Ok (0, None, b));
+    if negb (is_empty b) then Err MALFORMED                               (* bytes left over *)
+    else Ok (BAck t ver pid code pr).
 
 (* Pubrel.Unpack: no version *)
 Definition parse_pubrel (rl : N) (b : list N) : res body :=
@@ -143,8 +153,9 @@ Definition parse_pubrel (rl : N) (b : list N) : res body :=
   if rl =? 2 then Ok (BPubrel pid 0 None)
   else
     do '(code, b) <- read_byte b;
-    do '(p, _) <- props_unpack PUBREL b;
-    Ok (BPubrel pid code (Some p)).
+    do '(p, b) <- props_unpack PUBREL b;
+    if negb (is_empty b) then Err MALFORMED
+    else Ok (BPubrel pid code (Some p)).
 
 (* Subscribe.Unpack: the topic loop *)
 Fixpoint sub_topics_loop (fuel : nat) (ver : N) (acc : list subtopic) (b : list N) : res (list subtopic) :=
@@ -161,9 +172,11 @@ Fixpoint sub_topics_loop (fuel : nat) (ver : N) (acc : list subtopic) (b : list 
             {| st_name := tf; st_qos := N.land opts 3; st_rh := N.land 3 (N.shiftr opts 4);
                st_nl := bit opts 2; st_rap := bit opts 3 |}
           else {| st_name := tf; st_qos := opts; st_rh := 0; st_nl := false; st_rap := false |} in
-        if negb (ver =? 5) && (2 <? st_qos t) then Err PROTOCOL
+        if (ver =? 5) && (2 <? st_rh t) then Err PROTOCOL                   (* Retain Handling 3 *)
+        else if negb (ver =? 5) && (2 <? st_qos t) then Err PROTOCOL
         else if negb (N.land 3 (N.shiftr opts 6) =? 0) then Err PROTOCOL
         else if 2 <? st_qos t then Err PROTOCOL
+        else if st_nl t && has_prefix SHARE_PREFIX tf then Err PROTOCOL     (* [MQTT-3.8.3-4] *)
         else
           let acc' := acc ++ [t] in
           match b with [] => Ok acc' | _ => sub_topics_loop k ver acc' b end
@@ -171,6 +184,7 @@ Fixpoint sub_topics_loop (fuel : nat) (ver : N) (acc : list subtopic) (b : list 
 
 Definition parse_subscribe (ver : N) (b : list N) : res body :=
   do '(pid, b) <- read_uint16 b;
+  if pid =? 0 then Err PROTOCOL else
   do '(pr, b) <- (if ver =? 5 then do '(p, b') <- props_unpack SUBSCRIBE b; Ok (Some p, b') else Ok (None, b));
   do ts <- sub_topics_loop (S (length b)) ver [] b;
   Ok (BSubscribe ver pid ts pr).
@@ -185,27 +199,28 @@ Definition parse_suback (ver : N) (b : list N) : res body :=
   do cs <- parse_codes b;
   Ok (BSuback ver pid cs pr).
 
-Fixpoint unsub_topics_loop (fuel : nat) (acc : list str) (b : list N) : res (list str) :=
+Fixpoint unsub_topics_loop (fuel : nat) (ver : N) (acc : list str) (b : list N) : res (list str) :=
   match fuel with
   | O => OutOfFuel
   | S k =>
       do '(tf, b) <- read_utf8_string true b;
-      do ok <- valid_topic_filter_impl true tf;
+      do ok <- (if ver =? 5 then valid_v5_topic_impl tf else valid_topic_filter_impl true tf);
       if negb ok then Err PROTOCOL
       else
         let acc' := acc ++ [tf] in
-        match b with [] => Ok acc' | _ => unsub_topics_loop k acc' b end
+        match b with [] => Ok acc' | _ => unsub_topics_loop k ver acc' b end
   end.
 
 Definition parse_unsubscribe (ver : N) (b : list N) : res body :=
   do '(pid, b) <- read_uint16 b;
+  if pid =? 0 then Err PROTOCOL else
   do '(pr, b) <- (if ver =? 5 then do '(p, b') <- props_unpack UNSUBSCRIBE b; Ok (Some p, b') else Ok (None, b));
-  do ts <- unsub_topics_loop (S (length b)) [] b;
+  do ts <- unsub_topics_loop (S (length b)) ver [] b;
   Ok (BUnsubscribe ver pid ts pr).
 
 Definition parse_unsuback (ver : N) (b : list N) : res body :=
   do '(pid, b) <- read_uint16 b;
-  if is_v3x ver then Ok (BUnsuback ver pid [] None)
+  if is_v3x ver then (if negb (is_empty b) then Err MALFORMED else Ok (BUnsuback ver pid [] None))
   else
     do '(p, b) <- props_unpack UNSUBACK b;
     do cs <- parse_codes b;
@@ -216,14 +231,17 @@ Definition parse_disconnect (ver rl : N) (b : list N) : res body :=
     if rl =? 0 then Ok (BDisconnect ver 0 (Some props_empty))
     else
       do '(code, b) <- remap MALFORMED (read_byte b);
-      do '(p, _) <- props_unpack DISCONNECT b;
-      Ok (BDisconnect ver code (Some p))
+      do '(p, b) <- props_unpack DISCONNECT b;
+      if negb (is_empty b) then Err MALFORMED
+      else Ok (BDisconnect ver code (Some p))
+  else if negb (rl =? 0) then Err MALFORMED                                (* a v3 DISCONNECT is empty *)
   else Ok (BDisconnect ver 0 None).
 
 Definition parse_auth (b : list N) : res body :=
   do '(code, b) <- remap MALFORMED (read_byte b);
-  do '(p, _) <- props_unpack AUTH b;
-  Ok (BAuth code (Some p)).
+  do '(p, b) <- props_unpack AUTH b;
+  if negb (is_empty b) then Err MALFORMED
+  else Ok (BAuth code (Some p)).
 
 (* ---- NewPacket dispatch, split at the point where Unpack allocates and reads the body ---- *)
 
@@ -239,7 +257,8 @@ Definition precheck (fh : fixhdr) : res pre :=
   if t =? CONNECT then need0
   else if t =? CONNACK then need0
   else if t =? PUBLISH then do _ <- publish_flags flags; Ok PreBody
-  else if (t =? PUBACK) || (t =? PUBREC) || (t =? PUBREL) || (t =? PUBCOMP) then Ok PreBody
+  else if (t =? PUBACK) || (t =? PUBREC) || (t =? PUBCOMP) then need0
+  else if t =? PUBREL then if flags =? 2 then Ok PreBody else Err MALFORMED
   else if (t =? SUBSCRIBE) || (t =? UNSUBSCRIBE) then if flags =? 2 then Ok PreBody else Err MALFORMED
   else if (t =? SUBACK) || (t =? UNSUBACK) || (t =? DISCONNECT) then need0
   else if t =? PINGREQ then
@@ -271,7 +290,8 @@ Definition parse_body (v : N) (fh : fixhdr) (b : list N) : res body :=
   else Err PROTOCOL.
 
 (* Reader.ReadPacket on the byte stream `bs` (then end of input).  Returns the result and
-   the total size of the make([]byte, n) calls of the Unpack methods. *)
+   the number of bytes readRemaining asks for before it knows they have arrived (the whole
+   Remaining Length up to 4096, beyond that only what the input really holds). *)
 Definition read_packet_full (v : N) (bs : list N) : res (packet * list N) * N :=
   match bs with
   | [] => (Err EEOF, 0)
@@ -281,11 +301,12 @@ Definition read_packet_full (v : N) (bs : list N) : res (packet * list N) * N :=
           let fh := {| fh_type := N.shiftr first 4; fh_flags := N.land first 15; fh_rl := rl |} in
           match precheck fh with
           | Ok PreBody =>
-              (* restBuffer := make([]byte, RemainLength); io.ReadFull(r, restBuffer) *)
-              if shorter r1 rl then (Err (readfull_err (fh_type fh) (len r1)), rl)
+              (* restBuffer, err := readRemaining(r, RemainLength) *)
+              let alloc := if rl <=? 4096 then rl else N.min rl (len r1) in
+              if shorter r1 rl then (Err (readfull_err (fh_type fh) (len r1)), alloc)
               else
                 let '(bodyb, rest) := buf_next rl r1 in
-                (do b <- parse_body v fh bodyb; Ok ({| p_fh := Some fh; p_body := b |}, rest), rl)
+                (do b <- parse_body v fh bodyb; Ok ({| p_fh := Some fh; p_body := b |}, rest), alloc)
           | Ok (PreNoBody b) => (Ok ({| p_fh := Some fh; p_body := b |}, r1), 0)
           | Err e => (Err e, 0)
           | Panic => (Panic, 0)
